@@ -157,10 +157,30 @@ func (vm *VM) SetReturnValue(value Element) {
 	}
 }
 
-func (vm *VM) BeginScope() {
+// BeginScope - begin a scope on the symbol table of the current module. The table is
+// returned so that the caller can end that very scope with EndScopeOf(): when an error
+// propagates, the frames of failed calls stay on the call stack (for the error trace), so
+// "the current module" may have changed by the time the scope has to be closed.
+func (vm *VM) BeginScope() *Scope {
 	scope := vm.getCurrentScope()
 	if scope != nil {
 		scope.BeginScope()
+	}
+	return scope
+}
+
+// EndScopeOf - end the scope begun by BeginScope() on the symbol table it returned
+func (vm *VM) EndScopeOf(scope *Scope) {
+	if scope != nil {
+		scope.EndScope()
+	}
+}
+
+// UnwindCallStack - pop the call frames left behind by calls that failed, until only
+// `depth` frames remain (used when an exception is caught by a handler)
+func (vm *VM) UnwindCallStack(depth int) {
+	for vm.csCount > depth && vm.csCount > 0 {
+		vm.PopCallFrame()
 	}
 }
 
